@@ -1183,4 +1183,17 @@ def fixed_cases():
         ("main-missing", "fn f() { }\n", True, "no main"),
         ("main-ok", "fn main() { }\n", False, "empty main"),
         ("empty-match", "fn main() { let y: int = match 1 { }; println(y); }\n", True, "match without arms has no value"),
+        # a diverging FIRST arm must not fix the type of the match (later arms decide it)
+        ("match-never-first", 'fn main() { let a = 1; let x = match a { 0 => throw("z"), 1 => 20, _ => "s" }; println(x); }\n', True,
+         "arms of different types after a diverging first arm"),
+        ("match-never-first-let", 'fn main() { let a = 1; let x: str = match a { 0 => throw("z"), _ => 20 }; println(x); }\n', True,
+         "int-valued match with a diverging first arm bound to a str"),
+        ("match-never-first-default", 'fn f(a: int) -> int { match a { 0 => throw("z"), 1 => 20 } }\nfn main() { println(f(1)); }\n', True,
+         "value-producing match without default whose first arm diverges"),
+        ("match-never-first-block", 'fn f(a: int) -> str { let r = match a { 0 => { return "q"; }, _ => 5 }; r }\nfn main() { println(f(1)); }\n', True,
+         "match whose first arm returns, the rest is int, used as str"),
+        ("match-never-first-ok", 'fn f(a: int) -> int { let r = match a { 0 => throw("z"), 1 => 20, _ => 30 }; r + 1 }\nfn main() { println(f(1)); }\n', False,
+         "well-typed match with a diverging first arm: its value is an int"),
+        ("match-never-second-ok", 'fn f(a: int) -> int { match a { 0 => 1, 1 => throw("z"), _ => 30 } }\nfn main() { println(f(1)); }\n', False,
+         "diverging arm in second position"),
     ]
